@@ -465,7 +465,51 @@ func TestC15_Frequencies(t *testing.T) {
 				g.Fatalf("SubPermutation(%d, 1): element %d was sampled %d times in %d calls, expected %.0f ± %.0f: not uniform", k, v, c2[v], M, mean, 7*sd)
 			}
 		}
+		// ordered samples: every element is equally likely at every position, for sparse samples (few of many) as well as dense ones
+		nm := [][2]int{{48, 2}, {64, 2}, {64, 3}, {100, 5}, {128, 7}, {256, 4}, {256, 15}, {20, 10}, {17, 16}, {33, 2}}[g.Pick("nm", 10)]
+		sn, sm := nm[0], nm[1]
+		S := 400 * sn
+		if S < 20000 {
+			S = 20000
+		}
+		pos1 := make([][]int, sm)
+		pos2 := make([][]int, sm)
+		for i := range pos1 {
+			pos1[i], pos2[i] = make([]int, sn), make([]int, sn)
+		}
+		items := make([]int, sn)
+		for i := 0; i < S; i++ {
+			q, err := r.SubPermutation(sn, sm)
+			if err != nil || len(q) != sm {
+				g.Fatalf("SubPermutation(%d, %d): %v, %v", sn, sm, q, err)
+			}
+			for p, v := range q {
+				pos1[p][v]++
+			}
+			for j := range items {
+				items[j] = j
+			}
+			if err := r.Samples(sn, sm, func(a, b int) { items[a], items[b] = items[b], items[a] }); err != nil {
+				g.Fatalf("Samples(%d, %d): %v", sn, sm, err)
+			}
+			for p := 0; p < sm; p++ {
+				pos2[p][items[p]]++
+			}
+		}
+		mean = float64(S) / float64(sn)
+		sd = math.Sqrt(mean * (1 - 1/float64(sn)))
+		for p := 0; p < sm; p++ {
+			for v := 0; v < sn; v++ {
+				if d := math.Abs(float64(pos1[p][v]) - mean); d > 7*sd+1 {
+					g.Fatalf("SubPermutation(%d, %d): element %d was at position %d in %d of %d calls, expected %.0f ± %.0f (seven standard deviations): the ordered samples are not equally likely", sn, sm, v, p, pos1[p][v], S, mean, 7*sd)
+				}
+				if d := math.Abs(float64(pos2[p][v]) - mean); d > 7*sd+1 {
+					g.Fatalf("Samples(%d, %d): element %d was at position %d in %d of %d calls, expected %.0f ± %.0f (seven standard deviations): the ordered samples are not equally likely", sn, sm, v, p, pos2[p][v], S, mean, 7*sd)
+				}
+			}
+		}
 		g.Class(fmt.Sprintf("frequencies:n=%d", n))
+		g.Class(fmt.Sprintf("frequencies:orderedSample(%d,%d)", sn, sm))
 		g.NonTrivial()
 	})
 }
